@@ -469,6 +469,37 @@ def narrow_count_case(ctx, index, rng: random.Random):
                 rec.fail(monitor="C13.rules", op=f"constructor/{which}", symptom=pr, diff=["dtype"], detail={})
         rec.case(["ctor", which], True, cls=f"narrow/ctor/{which}/{np.dtype(h.dtype)}")
         return
+    if rng.random() < 0.1 and np.finfo(np.longdouble).eps < np.finfo(np.float64).eps:
+        # extended-precision weights promote the histogram to that type (numpy's promotion) and are summed in it: what float64 would round
+        # away stays
+        from physt.binnings import NumpyBinning
+
+        tiny = np.longdouble(2) ** -60
+        w = np.array([1 + tiny, 2, 1 + 2 * tiny][: rng.randint(2, 3)], dtype=np.longdouble)
+        x = np.array([0.5, 0.6, 0.7][: len(w)])
+        ed = np.array([0.0, 1.0, 2.0])
+        how = rng.choice(["h1", "fill_n", "from_calculate_frequencies"])
+        try:
+            with warnings.catch_warnings():
+                warnings.simplefilter("ignore")
+                if how == "h1":
+                    h = physt.h1(x, ed, weights=w)
+                elif how == "fill_n":
+                    h = physt.h1(None, ed, dtype=np.longdouble)
+                    h.fill_n(x, weights=w)
+                else:
+                    h = Histogram1D.from_calculate_frequencies(x, NumpyBinning(ed), weights=w)
+        except Exception as ex:
+            rec.fail(monitor="C13.rules", op=how, symptom=f"extended-precision weights raised {type(ex).__name__}", diff=["raised"], detail={"error": str(ex)[:140]})
+            return
+        with attach.quiet():
+            want = w.sum()
+            got = np.asarray(h.frequencies)[0]
+            if np.dtype(h.dtype) != np.dtype(np.longdouble) or np.longdouble(got) != want:
+                rec.fail(monitor="C13.rules", op=how, symptom="extended-precision weights were narrowed (dtype is not numpy's promotion, or the sum lost what float64 cannot hold)", diff=["dtype", "frequencies"],
+                         detail={"dtype": str(h.dtype), "lost": float(np.longdouble(got) - want)})
+        rec.case(["longdouble_weights", how, len(w)], True, cls=f"narrow/longdouble_weights/{how}")
+        return
     if rng.random() < 0.15:
         # sums below the *lower* end of a compact integer type (negative contents are legal under free arithmetics; exact templates
         # carry squared errors of zero): the sum is exact, the type widens
